@@ -1091,3 +1091,23 @@ def str_verbatim(check: Check, repo: Repo, rule: str = "STR-VERBATIM") -> None:
             if not seen:
                 check.ob(rule, fn, f"{scalar}.{role} = {fn.name}: has a str arm", False, f"no return under isinstance({p}, str)")
     check.floor(rule, 4, "str arms of the String/ID value coercers")
+
+
+def validator_no_early_return(check: Check, repo: Repo, rule: str = "VALIDATOR-EXHAUSTIVE") -> None:
+    check.rule(
+        rule,
+        "the input validators report *every* problem of a value: in validate_input_value_impl and "
+        "validate_input_literal_impl no `return` sits inside a `for` loop - elements of a list and fields of an input "
+        "object are checked independently (the coercers may stop at the first invalid element, they only need a verdict). A "
+        "`return` in the per-field loop ('a variable cannot produce errors yet') ends the check of all remaining fields: "
+        "later ill-typed constants, missing required fields, unknown fields and the OneOf count are never looked at, and a "
+        "document that validation accepted fails at execution",
+    )
+    for q in ("validate_input_value_impl", "validate_input_literal_impl"):
+        fn = repo.func("utilities.validate_input_value", q)
+        loops = [l for l in walk_body(fn) if isinstance(l, ast.For)]
+        if not loops:
+            raise AnalysisError(f"{q}: loops not found")
+        bad = [r for l in loops for s in l.body for r in ast.walk(s) if isinstance(r, ast.Return)]
+        check.ob(rule, fn, f"{q}: {len(loops)} loops over elements / fields", not bad,
+                 "no return inside a loop" if not bad else f"`{unparse(bad[0])[:40]}` at line {bad[0].lineno} ends the validation of the remaining elements")
